@@ -97,6 +97,11 @@ class World:
         if src is None:
             for t in spec["groups"]:
                 self.groups.append(self.dc.new_subset_group(subset_state=gen.build_state(t, self.d0)))
+            if spec.get("shared_multior"):
+                # a many-way 'or' whose first member is the very state object of the first group (MultiOrState keeps the
+                # objects it is given): evaluating one must not disturb what the other returns
+                from glue.core.subset import MultiOrState
+                self.groups.append(self.dc.new_subset_group(subset_state=MultiOrState([self.groups[0].subset_state, gen.build_state(spec["spare"], self.d0)])))
         else:
             for g in src.groups:
                 self.groups.append(self.dc.new_subset_group(subset_state=rebuild_state(g.subset_state, src.d0, self.d0)))
@@ -637,7 +642,7 @@ def core_cases(draw, ops=None):
                                    st.builds(lambda lo: {"t": "range", "att": ["c", 0], "lo": lo, "hi": lo + 2.0}, st.integers(-2, 3).map(float))))
     spare = draw(gen.tree_spec(dspec, max_leaves=2, kinds=kinds))
     views = [draw(gen.view_spec(shape, ("single", "tuple", "bool"))) for _ in range(draw(st.integers(0, 2)))]
-    return {"shape": shape, "a": a, "listener": draw(st.booleans()), "plain": draw(st.booleans()), "link": draw(st.sampled_from([None, "shift", "double"])), "groups": groups, "spare": spare,
+    return {"shape": shape, "a": a, "shared_multior": draw(st.booleans()), "listener": draw(st.booleans()), "plain": draw(st.booleans()), "link": draw(st.sampled_from([None, "shift", "double"])), "groups": groups, "spare": spare,
             "views": views, "ops": draw(st.lists(core_op if ops is None else ops, min_size=2, max_size=20 if ops is None else 8))}
 
 
